@@ -29,7 +29,12 @@ MANIFEST = {
             "blocks, blocks beyond the end); block2/block1_hostile_prefix_of_body (payloads cut from one byte string => the delivery is a prefix "
             "of it: the oracle of the crcv / srcv ops); block2_hostile_per_block (per-block mode hands over this response's payload).  "
             "RELEASE CALLBACK: adl_release_once (every exit path of coap_add_data_large_internal calls it once or hands it to exactly "
-            "one linked lg_xmit) + release_exactly_once (any create/delete/session-free sequence: never twice, exactly once at session free).  "
+            "one linked lg_xmit) + release_exactly_once (any create/delete/session-free sequence: never twice, exactly once at session free) + "
+            "adl_supersede_release_once / adl_run_release_exactly_once (Model/BlockAdl.lean: a call whose token / resource+Request-Tag is that of "
+            "a transfer still in progress supersedes it; for EVERY session state, key, body and exit - success, refusal, no room for the "
+            "smallest block, any of the three allocations failing, with the fail: label's local lg_xmit transcribed - the superseded body's "
+            "callback runs exactly once and the new body's exactly once or it is held by the one new linked lg_xmit; along every sequence "
+            "of calls / expiries, exactly once by session free; never two transfers with one key).  "
             "request_tag_tells_transfers_apart (lg_srcv lookup keyed by Request-Tag presence AND value, EMPTY tag included).  "
             "WHAT THE CLIENT'S HANDLERS SEE (Model/BlockTok.lean): block2_unsolicited_dropped + at_most_once_block2_unsolicited + "
             "at_most_once_block2_non (coap_handle_response_get_block with sent == NULL: once the body / the completing block has been handed "
@@ -68,6 +73,7 @@ REQUIRED_THEOREMS = ["block_opt_roundtrip", "blocks_tile_body", "rblock_represen
                      "never_wrong_body_partial", "at_most_once_per_transfer_partial",
                      "never_wrong_body_block2_partial", "at_most_once_block2_partial", "per_block_tiles_once_partial", "server_block2_genuine", "first_block_genuine",
                      "client_block1_slices", "client_block1_genuine", "adl_release_once", "release_exactly_once",
+                     "adl_supersede_release_once", "adl_exit_matches_adlRel", "adl_run_release_exactly_once",
                      "block2_hostile_no_unwritten_bytes", "block2_hostile_prefix_of_body", "block2_hostile_per_block",
                      "block1_hostile_no_unwritten_bytes", "block1_hostile_prefix_of_body",
                      "request_tag_tells_transfers_apart", "never_wrong_body_block2_composed_partial",
@@ -90,7 +96,11 @@ RULE = ("Layer A: block option values (all single bytes, random 0-3 byte values,
         "and blocks without More anywhere (crcv, both modes), a server asking for larger Block1 sizes at any point (xmit1), a client that changes "
         "SZX in both directions, sends short blocks / blocks without More anywhere, any Size1, blocks far ahead, in any order (srcv2); every "
         "crcv / srcv* line is run twice with different allocation poisons (the output must not depend on never-written memory), every line "
-        "must free what it allocated, a refused coap_add_data_large_request must not leave pdu->lg_xmit dangling; the real "
+        "must free what it allocated, a refused coap_add_data_large_request must not leave pdu->lg_xmit dangling; SEQUENCES of 2-8 "
+        "coap_add_data_large_request / _response calls on one session (adlx) re-using 1-3 tokens / resource+Request-Tag keys while the earlier "
+        "transfer is still linked, the superseding call succeeding with or without lg_xmit, refused in front, failing because the options "
+        "leave 0-20 bytes for the payload, or failing at the lg_xmit / token copy / skeleton PDU allocation (injected), expiry in between, "
+        "release callback invocations counted per body after every call and after session free; the real "
         "coap_handle_response_get_block with sent == NULL (crcvs: Non-confirmable transfers, every block - the last in particular - duplicated "
         "at once or after completion, stray Block2 responses on a session that waits for nothing, both modes); the real "
         "coap_check_update_token on sessions with 0-4 lg_crcv and 0-3 lg_xmit entries, the abandoned PDU carrying the wire token (any retry "
@@ -104,10 +114,10 @@ RULE = ("Layer A: block option values (all single bytes, random 0-3 byte values,
         "non-trivial = the real code did not refuse the input")
 TRUSTED_BASE = ["Lean 4.33 kernel; axioms allowed: propext, Classical.choice, Quot.sound (audited per theorem each run)",
                 "T1 extractor extract/blockconst.c and its renderer", "harness/block.c (incl. its coap_malloc_type / coap_realloc_type / "
-                "coap_free_type wrap: poison fill up to 64 MiB per allocation, live count), harness/block_sim.h, harness/sim_core.h, generators, "
+                "coap_free_type wrap: poison fill up to 64 MiB per allocation, live count, one injected coap_malloc_type failure by tag for adlx), harness/block_sim.h, harness/sim_core.h, generators, "
                 "the Python trace oracle (judge_xfer) and string comparison",
-                "M (CoapVerif/Model/Block.lean, BlockCrcv.lean, BlockXmit.lean, BlockRtag.lean, BlockTok.lean) is a hand transcription; checked "
-                "against the compiled code only on the cases run (ops srcv srcv2 srcv3 crcv crcvs ctok xmit1 xmit2 and the Layer A ops)",
+                "M (CoapVerif/Model/Block.lean, BlockCrcv.lean, BlockXmit.lean, BlockRtag.lean, BlockTok.lean, BlockAdl.lean) is a hand transcription; checked "
+                "against the compiled code only on the cases run (ops srcv srcv2 srcv3 crcv crcvs ctok xmit1 xmit2 adlx and the Layer A ops)",
                 "Layer B attribution: harness/block_sim.h maps a wire token to its transfer by the Uri-Path / Request-Tag of the client request "
                 "it first appeared in, and reads session->lg_crcv / lg_xmit inside the handlers to tell whether libcoap still holds the transfer"]
 ASSUMPTIONS = ["block numbers < 2^31 at every call of the range functions (coap_get_block_b rejects NUM > 0xFFFFF)",
@@ -134,7 +144,12 @@ ASSUMPTIONS = ["block numbers < 2^31 at every call of the range functions (coap_
                "nack_shows_application_token / nack_token_of_its_transfer: the abandoned PDU carries a libcoap-generated token (retry count >= 1; a token without one is left alone since fix f4071ae: application_token_left_alone); entries with the same STATE_TOKEN_BASE carry the same application token (libcoap numbers state tokens "
                "from session->tx_token; an lg_xmit and its lg_crcv share both), the application did not choose a token equal to one on the wire; "
                "tokens of at most 8 bytes",
-               "release_exactly_once: every deletion site unlinks a list member before coap_block_delete_lg_xmit (checked by reading all 10 sites)",
+               "release_exactly_once: every deletion site unlinks a list member before coap_block_delete_lg_xmit (checked by reading all 10 sites; "
+               "the one delete of an UNLINKED lg_xmit, the fail: label of coap_add_data_large_internal, is modelled with its local variable: adlCall)",
+               "adl_supersede_release_once / adl_run_release_exactly_once: keys are compared as the harness builds them (distinct tokens / distinct "
+               "resource + Request-Tag, query NULL); the exit is adlExitReq / adlExitRsp of the call's sizes (UDP, no OSCORE, no Q-Block, request "
+               "carrying Block2 NUM 0 on the response path); allocation failures other than the three mallocs of the function (coap_pdu_resize "
+               "inside coap_update_option / coap_add_data) are not injected",
                "compiled Lean definitions agree with the kernel's reading of them"]
 SPEC_DECISIONS = ["D15 coap_add_data_large_request/_response returning 0 (no room for even the smallest block within the maximum "
                   "message size, after the 43+8 bytes libcoap reserves for Echo and token) is an explicit failure, not a violation of "
@@ -753,13 +768,76 @@ def gen_ctok(rng, n):
     return L
 
 
+def adlx_toklen(key):
+    return 0 if key == 0 else (key * 3) % 8 + 1
+
+
+def gen_adlx(rng, n):
+    """sequences of coap_add_data_large_request / _response calls on ONE session: keys re-used while the earlier transfer is
+    still linked (it is superseded), and the superseding call made to succeed with / without lg_xmit, to be refused in front,
+    to fail because the options leave no room for the smallest block, or to fail at one of its three allocations"""
+    L = []
+    for _ in range(n):
+        isreq = rng.random() < 0.6
+        items = []
+        if isreq:
+            mx = rng.choice([rng.randrange(80, 200), rng.randrange(80, 320), 128, 1152, rng.randrange(200, 1300)])
+            keys = rng.sample(range(8), rng.choice([1, 1, 2, 2, 3]))
+            for _k in range(rng.randrange(2, 9)):
+                if rng.random() < 0.08:
+                    items.append("x"); continue
+                key = rng.choice(keys)
+                tl = adlx_toklen(key)
+                room = mx - tl - 43 - (8 - tl)            # what is left for options + smallest block
+                r = rng.random()
+                if r < 0.35:                              # options leave 0..20 bytes: around "(2) does not fit"
+                    plen = room - rng.randrange(0, 22) - 2
+                elif r < 0.45:
+                    plen = rng.randrange(0, 256)
+                else:
+                    plen = rng.choice([0, 1, 1, 1, 5, 12, 13, 20])
+                plen = max(0, min(255, plen))
+                ln = rng.choice([0, 1, rng.randrange(64), 600, 600, rng.randrange(5000), rng.randrange(70000),
+                                 max(0, room - plen + rng.randrange(-3, 4))])
+                blk = rng.choice([7, 7, 7, rng.randrange(7)])
+                af = rng.choice([0, 0, 0, 0, 1, 2, 3])
+                items.append("%d.%d.%d.%d.%d" % (key, blk, ln, plen, af))
+        else:
+            mx = rng.choice([rng.randrange(16, 100), rng.randrange(60, 320), rng.randrange(60, 80), 1152, rng.randrange(64, 1300)])
+            keys = rng.sample(range(6), rng.choice([1, 1, 2, 3]))
+            for _k in range(rng.randrange(2, 9)):
+                if rng.random() < 0.08:
+                    items.append("x"); continue
+                ln = rng.choice([0, 1, rng.randrange(64), 600, rng.randrange(5000), rng.randrange(70000)])
+                r = rng.random()
+                # Location-Path in the response: 4 + 2 (Content-Format) + 2 (Block2) + 43 + 4 bytes are taken anyway
+                plen = 0 if r < 0.5 else (mx - 55 - rng.randrange(0, 24) - 2) if r < 0.85 else rng.randrange(0, 256)
+                plen = max(0, min(255, plen))
+                items.append("%d.%d.%d.%d.%d" % (rng.choice(keys), rng.randrange(7), ln, plen, rng.choice([0, 0, 0, 0, 1, 2, 3])))
+        if rng.random() < 0.3 and not isreq:
+            key = rng.randrange(6)
+            mx = rng.randrange(90, 310)
+            plen = min(255, max(0, mx - 55 - rng.randrange(0, 14) - 2))
+            items = ["%d.%d.%d.0.0" % (key, rng.randrange(7), rng.randrange(mx, 4000))] + items[:rng.randrange(0, 3)] + \
+                    ["%d.%d.%d.%d.0" % (key, rng.randrange(7), rng.randrange(mx, 4000), plen)] + items[3:5]
+        if rng.random() < 0.3 and isreq:
+            # the seeded shape itself, with this line's sizes: a multi-block body, then the same key with options that leave no room
+            key = rng.randrange(8); tl = adlx_toklen(key)
+            mx = rng.randrange(90, 300)
+            plen = min(255, max(0, mx - 51 - rng.randrange(0, 14) - 2))
+            items = ["%d.7.%d.1.0" % (key, rng.randrange(mx, 4000))] + items[:rng.randrange(0, 3)] + \
+                    ["%d.7.%d.%d.0" % (key, rng.randrange(mx, 4000), plen)] + items[3:5]
+        L.append("adlx %s %d %d %s" % ("q" if isreq else "r", mx, rng.choice([0, 0, 0, rng.randrange(1, 7)]), ",".join(items)))
+    return L
+
+
 def generate(ctx, escalate=False):
     n = 3000 if ctx.thorough() else 400
     if escalate:
         n *= 3
     return gen_layer_a(ctx, n) + gen_crcv(ctx.rng, n * 2) + gen_xmit(ctx.rng, n) + gen_rtag(ctx.rng, n) + gen_layer_b(ctx, n * 3) + \
         gen_crcv_hostile(ctx.rng, n * 2) + gen_xmit1_hostile(ctx.rng, n) + gen_srcv_hostile(ctx.rng, n * 2) + \
-        gen_crcvs(ctx.rng, n) + gen_ctok(ctx.rng, n) + gen_layer_b_rules(ctx, n)
+        gen_crcvs(ctx.rng, n) + gen_ctok(ctx.rng, n) + gen_layer_b_rules(ctx, n) + gen_adlx(ctx.rng, n * 2)
 
 
 # --------------------------------------------------------------------------
@@ -784,6 +862,58 @@ def crcv_genuine(w):
     its = [x.split(".") for x in w[5].split(",")]
     return all(len(x) == 5 and x[2] == its[0][2] and int(x[1]) == (1 if (int(x[0]) + 1) * (1 << (int(x[2]) + 4)) < ln else 0)
                for x in its)
+
+
+def spec_adlx(w, i):
+    """I-vs-property for a sequence of coap_add_data_large_* calls on one session (computed from the harness line alone):
+    the release callback of every body handed to libcoap runs exactly once - never twice, never for a body an lg_xmit still
+    linked into the session holds, and exactly once by the time the session is freed; a refused call has released its body
+    on return; a transfer with the key of the new body does not survive the call next to it"""
+    m = re.match(r"(\S+) free=(\S+)$", i)
+    if not m:
+        return "unparsable: " + i[:160]
+    outs, fin = m.group(1).split(","), m.group(2)
+    items = w[4].split(",")
+    if len(outs) != len(items):
+        return "unparsable (%d items, %d outputs): %s" % (len(items), len(outs), i[:160])
+    n = 0
+    for idx, (it, o) in enumerate(zip(items, outs)):
+        f = o.split("/")
+        if len(f) != 3:
+            return "unparsable item output: " + o
+        res, lst, dig = f
+        ents = [] if lst == "-" else [tuple(int(x) for x in e.split(":")) for e in lst.split("+")]
+        cnt = [] if dig == "-" else [int(c) for c in dig]
+        called = it != "x" and res != "nopdu"
+        if called:
+            n += 1
+        if len(cnt) != n:
+            return "unparsable counters: " + o
+        at = "after item %d (%s -> %s)" % (idx + 1, it, o)
+        for b, c in enumerate(cnt):
+            hold = sum(1 for e in ents if e[1] == b)
+            if c > 1:
+                return "the release callback of body %d ran %d times %s" % (b, c, at)
+            if c and hold:
+                return "the release callback of body %d ran while an lg_xmit linked into the session still holds it %s" % (b, at)
+            if c + hold != 1:
+                return "body %d was handed to libcoap but its release callback has not run and no linked lg_xmit holds it %s" % (b, at)
+        if any(e[0] < 0 or e[1] < 0 or e[1] >= n for e in ents):
+            return "the session's lg_xmit list has an entry that is none of the bodies handed over %s" % at
+        if len({e[0] for e in ents}) != len(ents):
+            return "two transfers with one key are linked into the session %s" % at
+        if it == "x" and ents:
+            return "an lg_xmit survived its expiry " + at
+        if called:
+            key, new = int(it.split(".")[0]), n - 1
+            if res.startswith("f") or res == "k-":
+                if cnt[new] != 1:
+                    return "the call returned without an lg_xmit for body %d but its release callback did not run %s" % (new, at)
+            elif not (ents and ents[0] == (key, new)):
+                return "the call linked an lg_xmit but the head of the session's list is not (key %d, body %d) %s" % (key, new, at)
+    if fin != ("1" * n if n else "-"):
+        return "after the session was freed the release callbacks of the %d bodies had run %s times" % (n, fin)
+    return None
 
 
 def spec_layer_a(ctx, c):
@@ -833,6 +963,10 @@ def spec_layer_a(ctx, c):
                 return "first block payload is not the start of the body"
         if not re.search(r"rel=1$", i):
             return "release callback did not run exactly once: " + i
+    elif op == "adlx":
+        why = spec_adlx(w, i)
+        if why:
+            return why
     elif op == "slice":
         szx, num, ln, seed = map(int, w[1:5])
         cs = 1 << (szx + 4)
@@ -1353,7 +1487,7 @@ def classify(c):
 def search(ctx, tie_breaks, proof):
     return gen_layer_a(ctx, 1500) + gen_crcv(ctx.rng, 3000) + gen_xmit(ctx.rng, 1500) + gen_rtag(ctx.rng, 1500) + \
         gen_crcv_hostile(ctx.rng, 3000) + gen_xmit1_hostile(ctx.rng, 1500) + gen_srcv_hostile(ctx.rng, 3000) + \
-        gen_crcvs(ctx.rng, 1500) + gen_ctok(ctx.rng, 1500) + gen_layer_b_rules(ctx, 600)
+        gen_crcvs(ctx.rng, 1500) + gen_ctok(ctx.rng, 1500) + gen_layer_b_rules(ctx, 600) + gen_adlx(ctx.rng, 1500)
 
 
 def known(ctx, c):
